@@ -2786,7 +2786,13 @@ class Parameters:
         self_._state_watchers = []
         self_._TRIGGER = True
         try:
-            self_.update(dict(params, **triggers))
+            if self_.self is None:
+                self_.update(dict(params, **triggers))
+            else:
+                # Announcing the current values again is not an override:
+                # the triggered parameters keep their links.
+                with _syncing(self_.self, param_names):
+                    self_.update(dict(params, **triggers))
         finally:
             self_._TRIGGER = False
             self_._events += events
